@@ -144,6 +144,8 @@ func c14T5Premise(hist *c14Hist, log []string) bool {
 			if i != len(hist.ops)-1 {
 				return false
 			}
+		case "O":
+			return false // statistics only: configurations without callbacks are not counted
 		default:
 			return false
 		}
@@ -173,8 +175,21 @@ func c14T5Premise(hist *c14Hist, log []string) bool {
 	return len(res) == n
 }
 
+// c14Optional: an op "O <flags>" builds the buffer WITHOUT its optional callbacks:
+// r = Callback.Released is nil, c = Callback.Check is nil.
+func c14Optional(hist *c14Hist) (noReleased, noCheck bool) {
+	for _, op := range hist.ops {
+		if len(op) == 2 && op[0] == "O" {
+			noReleased = noReleased || strings.Contains(op[1], "r")
+			noCheck = noCheck || strings.Contains(op[1], "c")
+		}
+	}
+	return
+}
+
 func c14Run(in []string) []string {
 	hist := c14Parse(in)
+	noReleased, noCheck := c14Optional(hist)
 	for _, op := range hist.ops {
 		if len(op) == 2 && op[0] == "G" {
 			return c14RunConcurrent(hist, int(c14U(op[1])))
@@ -196,7 +211,7 @@ func c14Run(in []string) []string {
 		}
 		return -1
 	}
-	buf := dagordering.New(dag.Metric{Num: idx.Event(hist.limN), Size: hist.limS}, dagordering.Callback{
+	cbs := dagordering.Callback{
 		Process: func(e dag.Event) error {
 			id := gsev.Num(e.ID())
 			nProc[id]++
@@ -248,7 +263,16 @@ func c14Run(in []string) []string {
 			}
 			return nil
 		},
-	})
+	}
+	if noReleased {
+		cbs.Released = nil
+		vu.Stat("config_no_released")
+	}
+	if noCheck {
+		cbs.Check = nil
+		vu.Stat("config_no_check")
+	}
+	buf := dagordering.New(dag.Metric{Num: idx.Event(hist.limN), Size: hist.limS}, cbs)
 	cid := 0
 	for _, op := range hist.ops {
 		if len(op) == 0 {
@@ -279,6 +303,7 @@ func c14Run(in []string) []string {
 			connected[id] = gsev.New(-1, id, nil, 1, 1)
 			log = append(log, fmt.Sprintf("X.%d", id))
 			vu.Stat("op_connect")
+		case "O":
 		default:
 			panic("bad op")
 		}
@@ -318,7 +343,8 @@ func c14RunConcurrent(hist *c14Hist, g int) []string {
 		}
 		return "0"
 	}
-	buf := dagordering.New(dag.Metric{Num: idx.Event(hist.limN), Size: hist.limS}, dagordering.Callback{
+	noReleased, noCheck := c14Optional(hist)
+	cbs := dagordering.Callback{
 		Process: func(e dag.Event) error {
 			mu.Lock()
 			defer mu.Unlock()
@@ -367,7 +393,14 @@ func c14RunConcurrent(hist *c14Hist, g int) []string {
 			}
 			return nil
 		},
-	})
+	}
+	if noReleased {
+		cbs.Released = nil
+	}
+	if noCheck {
+		cbs.Check = nil
+	}
+	buf := dagordering.New(dag.Metric{Num: idx.Event(hist.limN), Size: hist.limS}, cbs)
 	onFirstID := func(e *gsev.Ev) {
 		mu.Lock()
 		recs = append(recs, rec{start: e})
@@ -404,7 +437,7 @@ func c14RunConcurrent(hist *c14Hist, g int) []string {
 	}
 	for _, op := range hist.ops {
 		switch op[0] {
-		case "G":
+		case "G", "O":
 		case "P":
 			if len(op) < 4 || len(op) != 4+int(c14U(op[3])) {
 				panic("bad push")
@@ -577,6 +610,14 @@ func c14Exhaustive(k int, emit func(...string)) {
 				for _, l := range lims {
 					c14Emit(emit, l[0], l[1], fc, fp, ops)
 					c14Emit(emit, l[0], l[1], fc, fp, append(append([]string{}, ops...), "K"))
+				}
+				// the buffer's optional callbacks absent: Released == nil, Check == nil
+				for _, fl := range []string{"r", "c", "rc"} {
+					c14Emit(emit, c14Big, c14Big, fc, fp, append(append([]string{}, ops...), "K", "O "+fl))
+				}
+				if f > k { // a Process that fails only on its first call (the copy may be tried again)
+					once := [][2]uint64{{uint64(f - k), 1}}
+					c14Emit(emit, c14Big, c14Big, nil, once, append(append([]string{}, ops...), "K", "O r"))
 				}
 			}
 		}
@@ -760,6 +801,9 @@ func init() {
 					c14Complete(r, emit)
 				case i%5 == 4:
 					c14Concurrent(r, emit)
+				case i%10 == 2:
+					fl := []string{"r", "c", "rc"}[r.Intn(3)]
+					c14Random(r, func(in ...string) { emit(append(append([]string{}, in...), ";", "O", fl)...) })
 				default:
 					c14Random(r, emit)
 				}
